@@ -20,7 +20,9 @@ fuzz_stage() {
   # second engine: libFuzzer over the same checks (see harness/src/fuzz.rs). Additive: if the nightly
   # fuzz build is unavailable the proptest verdict stands and the evidence says so.
   local ID="$1" SEED="${VERIF_SEED:-1}" OUT=$VERIF/out
-  local RUNS=400000; [ "$ID" = "C20" ] && RUNS=40000; [ "$ID" = "C06" ] && RUNS=60000; [ "$ID" = "C07" ] && RUNS=60000
+  # runs chosen so that the stage takes roughly 5-10 minutes at the observed executions per second
+  local RUNS=400000
+  case "$ID" in C06|C07) RUNS=60000;; C10) RUNS=80000;; C13) RUNS=100000;; C20) RUNS=40000;; esac
   [ -n "${VERIF_FUZZ_RUNS:-}" ] && RUNS=$VERIF_FUZZ_RUNS
   mkdir -p $OUT/corpus $OUT/artifacts $OUT/logs
   if ! ( cd $VERIF/harness && cargo +nightly fuzz build --fuzz-dir fuzz --target-dir $VERIF/target/fuzz -s none all >$OUT/logs/fuzz-build.log 2>&1 ); then
